@@ -37,6 +37,7 @@ fn well_formed(m: &ParameterNumberMessage) -> Result<(), Fail> {
     ensure!(r.is_14_bit || r.value < 128, "report/seven_bit_value_over_127", "{:?}", r);
     ensure!(!r.is_14_bit || r.kind == 0, "report/fourteen_bit_not_data_entry", "{:?}", r);
     ensure!(*m == build_pn(&r), "report/not_equal_to_constructed_message", "{:?}", m);
+    reencode_pn(m)?;
     Ok(())
 }
 
@@ -424,6 +425,10 @@ fn check_scenario_ops(s: &Scenario, prefix: &[Op], t: u64) -> Result<ROutcome, F
     set_clock(start);
     let mut sim = Sim { sc: new_scanner(t), now: start };
     sim.apply(prefix);
+    if sim.now > (1u64 << 63) {
+        // a clock this close to saturation cannot "let the timeout pass" any more: not a valid case
+        return Ok(ROutcome { nontrivial: false, classes: vec![], hash: 0 });
+    }
     let ch = s.ch;
     // a fresh selection on the channel (outputs of the selection bytes may flush earlier traffic)
     let _ = sim.feed(ch, if s.registered { 101 } else { 99 }, (s.number >> 7) as u8);
